@@ -59,6 +59,7 @@ def check(ctx):
     ctx.guard("C06.b NF-DIRECT", "L2Saving", lambda: check_direct(ctx, "skchange.anomaly_scores", "L2Saving", 2, "l2_saving"))
     ctx.guard("C06.c PASS-THROUGH", "to_*", lambda: check_passthrough(ctx))
     ctx.guard("C06.a SPECIAL-CASE", "adapters", lambda: check_special_cases(ctx))
+    ctx.guard("C06.b SHAPE-COLS", "adapters-multivariate", lambda: check_multivariate_shape(ctx))
     # population: every registered score must be one of the analysed ones
     known = {"ChangeScore", "CUSUM", "Saving", "L2Saving", "LocalAnomalyScore"}
     for reg in (("skchange.change_scores", "CHANGE_SCORES"), ("skchange.anomaly_scores", "ANOMALY_SCORES")):
@@ -68,7 +69,7 @@ def check(ctx):
     ctx.expect_min("C06.a NF-ADAPTER", sum(1 for o in ctx.obs if o.rule == "C06.a NF-ADAPTER"), 6)
 
 
-def _adapter(ctx, modattr, width, cost_param, extra=None):
+def _adapter(ctx, modattr, width, cost_param, extra=None, evaluation_type="univariate"):
     cls = ctx.P.public_class(*modattr)
     ex = new_executor(ctx, ABSTRACT_SUMMARIES)
     state = {}
@@ -76,7 +77,7 @@ def _adapter(ctx, modattr, width, cost_param, extra=None):
     def thunk(ex):
         X = data_sym(ex)
         cuts = cuts_sym(ex, width)
-        cost = abstract_scorer(ex, ctx.P, BASECOST, "cost", param=cost_param)
+        cost = abstract_scorer(ex, ctx.P, BASECOST, "cost", param=cost_param, evaluation_type=evaluation_type)
         state["cost"] = cost
         state["X"] = X
         obj = ex.new_object(cls, [cost], {})
@@ -168,6 +169,55 @@ def check_special_cases(ctx):
                 ctx.guard(rule, key, go, loc)
 
 
+def check_multivariate_shape(ctx):
+    """A multivariate cost (one column per cut, whatever p) keeps its shape through every adapter: the score of a
+    multivariate cost has ONE column.  A buffer allocated with one column per variable broadcasts the single cost column
+    into all of them, and the detectors' column sum then reports p times the score."""
+    rule = "C06.b SHAPE-COLS"
+    for modattr, width, cparam in ((("skchange.change_scores", "ChangeScore"), 3, "none"), (("skchange.anomaly_scores", "Saving"), 2, "fixed"), (("skchange.anomaly_scores", "LocalAnomalyScore"), 4, "none")):
+        cls, ex, paths, st = _adapter(ctx, modattr, width, cparam, evaluation_type="multivariate")
+        loc = cls.methods["_evaluate"].loc() if "_evaluate" in cls.methods else cls.module.relpath
+        rets = returns(paths)
+        if not rets:
+            ctx.undecided(rule, f"{cls.name}|multivariate", loc, "no returning path with a multivariate cost", found=sorted({(p.outcome, p.exc.exc_name if p.exc else "") for p in paths})[:3])
+            continue
+        for p in rets:
+            v = p.value
+            shp = getattr(v, "shape", None)
+            if shp is None or len(shp) != 2:
+                ctx.undecided(rule, f"{cls.name}|multivariate", loc, "the shape of the score of a multivariate cost is not known", found=f"shape {shp}")
+                continue
+            ok = nf_equal(lift(shp[0]), lift(K)) and lift(shp[1]).as_const() == 1
+            bm = [e for e in p.events[mark_index(p, "fit-done"):] if e.kind == "broadcast_mismatch"]
+            ctx.check(ok and not bm, rule, f"{cls.name}|multivariate", bm[0].loc() if bm else loc, "with a multivariate cost (one column per cut) the score has one column too", found=f"shape {shp}" + (f"; broadcast {bm[0].data['left']} vs {bm[0].data['right']}" if bm else ""), expected="(k, 1)")
+
+
+def _overwritten_after(ctx, rule, key, loc, v):
+    """the returned array was computed by the defining expression and then partly overwritten (`scores[mask] = 0.0`): the
+    score of the overwritten entries is no longer the cost difference.  True when something was reported."""
+    a = getattr(v, "arr", None)
+    if a is None or not getattr(a, "materialised", False) or not a.stores:
+        return False
+    reported = False
+    for sv in a.stores:
+        val = sv.data.get("value")
+        const = isinstance(val, Num) and val.nf is not None and val.nf.as_const() is not None
+        idx = sv.data.get("index") or []
+        msk = ", ".join(valkey(i)[:80] for i in idx)
+        absolute = None
+        if len(idx) == 1 and isinstance(idx[0], Num) and idx[0].cond is not None and idx[0].cond.t[0] == "cmp":
+            d = idx[0].cond.t[2].reduced()
+            absolute = bool(d.num.get((), 0)) if (len(d.den) == 1 and () in d.den) else None
+        if const and absolute is False and val.nf.as_const() == 0:
+            continue  # entries on one side of ZERO set to zero: a sign clamp of rounding noise, scale-free
+        reported = True
+        if const and absolute:
+            ctx.violation(rule, key + "|overwritten", sv.loc(), "entries of the score are overwritten by a constant after the defining cost difference was computed (selected by a test against an absolute number): for data on another scale genuine scores are replaced - the score is homogeneous in the data, a fixed cut-off is not", found=f"[{msk}] = {val.nf!r}", expected="the cost difference as computed")
+        else:
+            ctx.undecided(rule, key + "|overwritten", sv.loc(), "entries of the score are overwritten after the defining cost difference was computed: not decided", found=f"[{msk}] = {valkey(val)[:60]}")
+    return reported
+
+
 def _no_opaque(ctx, rule, key, loc, nf):
     if nf is None:
         ctx.undecided(rule, key, loc, "the returned value has no normal form (a call without a model on the path)")
@@ -194,6 +244,8 @@ def check_change_score(ctx):
     spec, _ = run_spec(ctx, "scores", "change_score", lambda sx: [Num(C(c0, c2), (K, Pdim)), Num(C(c0, c1), (K, Pdim)), Num(C(c1, c2), (K, Pdim))])
     for p in rets:
         v = p.value
+        if _overwritten_after(ctx, rule, "ChangeScore", loc, v):
+            continue
         if _no_opaque(ctx, rule, "ChangeScore", loc, getattr(v, "nf", None)):
             ctx.check(nf_equal(v.nf, spec.nf), rule, "ChangeScore|value", loc, "change score == C(s,e) - C(s,k) - C(k,e) on the currently fitted data", found=repr(v.nf), expected=repr(spec.nf))
     _min_size(ctx, ex, st, "ChangeScore", "cost", loc)
@@ -243,6 +295,8 @@ def check_saving(ctx):
     spec, _ = run_spec(ctx, "scores", "saving", lambda sx: [Num(app("eval", "cost", xk, cutsnf), (K, Pdim)), Num(app("eval", opt.key if isinstance(opt, ObjV) else "?", xk, cutsnf), (K, Pdim))])
     for p in rets:
         v = p.value
+        if _overwritten_after(ctx, rule, "Saving", loc, v):
+            continue
         if _no_opaque(ctx, rule, "Saving", loc, getattr(v, "nf", None)):
             ctx.check(nf_equal(v.nf, spec.nf), rule, "Saving|value", loc, "saving == baseline.evaluate(cuts) - optimised.evaluate(cuts), both fitted on the current data", found=repr(v.nf), expected=repr(spec.nf))
     _min_size(ctx, ex, st, "Saving", opt.key if isinstance(opt, ObjV) else "?", loc)
